@@ -49,6 +49,11 @@ func vC10Existing() (*vScenario, string, string, string) {
 	}
 	sc.env.store.recs[sc.id] = vSnapshot(sc.sm)
 	zzverif.Unwind(16)
+	// local service failures only ever refuse the new swap earlier: not this property's subject here
+	// (H_C10_requestAfterRestore keeps one during the restart)
+	if !zzverif.Thorough() {
+		sc.env.w.maxFaults = 0
+	}
 	// policy lets the new swap through so that only the channel lock can refuse it
 	sc.env.policy.newSwaps, sc.env.policy.allowed, sc.env.policy.suspicious, sc.env.policy.minMsat = true, true, false, 0
 	return sc, a, b, c
